@@ -47,6 +47,8 @@ pub open spec fn dec_u32(s: Seq<u8>) -> Option<(u32, nat)> {
 }
 
 pub proof fn lemma_dec_u32_from_bounded(s: Seq<u8>, num: u32, len: nat)
+    requires
+        len <= 70,
     ensures
         match dec_u32_from(s, num, len) {
             Some((v, k)) => 1 <= k <= s.len() && len + 7 * k <= 77,
@@ -99,6 +101,7 @@ pub proof fn lemma_dec_enc_u32_from(w: u32, tail: Seq<u8>, num: u32, len: u32)
 pub proof fn lemma_dec_enc_u32(v: u32, tail: Seq<u8>)
     ensures dec_u32(enc_uint(v as nat) + tail) == Some((v, enc_uint(v as nat).len())),
 {
+    assert(v <= (u32::MAX >> 0u32)) by(bit_vector);
     lemma_dec_enc_u32_from(v, tail, 0, 0);
     assert(0u32 | (v << 0u32) == v) by(bit_vector);
 }
@@ -127,6 +130,8 @@ pub open spec fn dec_u64(s: Seq<u8>) -> Option<(u64, nat)> {
 }
 
 pub proof fn lemma_dec_u64_from_bounded(s: Seq<u8>, num: u64, len: nat)
+    requires
+        len <= 70,
     ensures
         match dec_u64_from(s, num, len) {
             Some((v, k)) => 1 <= k <= s.len() && len + 7 * k <= 77,
@@ -178,6 +183,274 @@ pub proof fn lemma_dec_enc_u64_from(w: u64, tail: Seq<u8>, num: u64, len: u64)
 pub proof fn lemma_dec_enc_u64(v: u64, tail: Seq<u8>)
     ensures dec_u64(enc_uint(v as nat) + tail) == Some((v, enc_uint(v as nat).len())),
 {
+    assert(v <= (u64::MAX >> 0u64)) by(bit_vector);
     lemma_dec_enc_u64_from(v, tail, 0, 0);
     assert(0u64 | (v << 0u64) == v) by(bit_vector);
+}
+
+// ---------------------------------------------------------------------------------------------
+// signed var-int: first byte = continuation bit 0x80 | sign bit 0x40 | 6 low bits of the magnitude; the remaining
+// magnitude bits (if any) follow as an unsigned var-int.  The sign is a separate flag, so "-0" is representable.
+// ---------------------------------------------------------------------------------------------
+pub open spec fn enc_sint(mag: nat, neg: bool) -> Seq<u8> {
+    let first = (mag % 64 + (if neg { 64nat } else { 0nat }) + (if mag >= 64 { 128nat } else { 0nat })) as u8;
+    if mag < 64 {
+        seq![first]
+    } else {
+        seq![first] + enc_uint(mag / 64)
+    }
+}
+
+pub open spec fn enc_i64(v: i64) -> Seq<u8> {
+    enc_sint(abs_i64(v) as nat, v < 0)
+}
+
+pub proof fn lemma_enc_sint_len(mag: nat, neg: bool)
+    ensures
+        enc_sint(mag, neg).len() >= 1,
+        mag < 0x1_0000_0000_0000_0000 ==> enc_sint(mag, neg).len() <= 10,
+{
+    lemma_enc_uint_len(mag / 64);
+    reveal_with_fuel(enc_uint, 10);
+}
+
+/// the accumulation loop of `read_var_i64` / `read_signed` from the state (num, len)
+pub open spec fn dec_i64_from(s: Seq<u8>, num: i64, len: u32) -> Option<(i64, nat)>
+    decreases s.len(),
+{
+    if s.len() == 0 {
+        None
+    } else {
+        let b = s[0];
+        let num2 = num | (((b as i64) & 0x7f) << len);
+        if b < 0x80 {
+            Some((num2, 1nat))
+        } else if len + 7 > 63 {
+            None
+        } else {
+            dec_bump(dec_i64_from(s.skip(1), num2, (len + 7) as u32), 1)
+        }
+    }
+}
+
+/// sign application + byte count of the header byte(s) already consumed
+pub open spec fn dec_sint_finish(d: Option<(i64, nat)>, neg: bool, k: nat) -> Option<((i64, bool), nat)> {
+    match d {
+        Some((n, j)) => Some(((if neg { wrapping_neg_i64(n) } else { n }, neg), j + k)),
+        None => None,
+    }
+}
+
+/// what `read_var_i64` / `read_signed` compute: ((value, sign flag), bytes consumed)
+pub open spec fn dec_sint(s: Seq<u8>) -> Option<((i64, bool), nat)> {
+    if s.len() == 0 {
+        None
+    } else {
+        let b = s[0];
+        let num = (b & 0x3f) as i64;
+        let neg = (b & 0x40) > 0;
+        if b & 0x80 == 0 {
+            Some(((if neg { (-num) as i64 } else { num }, neg), 1nat))
+        } else {
+            dec_sint_finish(dec_i64_from(s.skip(1), num, 6), neg, 1)
+        }
+    }
+}
+
+pub open spec fn dec_i64(s: Seq<u8>) -> Option<(i64, nat)> {
+    match dec_sint(s) {
+        Some(((v, neg), k)) => Some((v, k)),
+        None => None,
+    }
+}
+
+pub proof fn lemma_dec_i64_from_bounded(s: Seq<u8>, num: i64, len: u32)
+    requires
+        len <= 63,
+    ensures
+        match dec_i64_from(s, num, len) {
+            Some((v, k)) => 1 <= k <= s.len() && len + 7 * k <= 70,
+            None => true,
+        },
+    decreases s.len(),
+{
+    if s.len() > 0 && s[0] >= 0x80 && len + 7 <= 63 {
+        let num2 = num | (((s[0] as i64) & 0x7f) << len);
+        lemma_dec_i64_from_bounded(s.skip(1), num2, (len + 7) as u32);
+    }
+}
+
+/// C10 for the signed format: between 1 and 10 bytes are consumed
+pub proof fn lemma_dec_sint_bounded(s: Seq<u8>)
+    ensures
+        dec_bounded(s, dec_sint(s)),
+        dec_bounded(s, dec_i64(s)),
+{
+    if s.len() > 0 {
+        lemma_dec_i64_from_bounded(s.skip(1), (s[0] & 0x3f) as i64, 6);
+    }
+}
+
+pub proof fn lemma_dec_enc_i64_from(w: u64, tail: Seq<u8>, num: i64, len: u32)
+    requires
+        len < 64,
+        w <= (u64::MAX >> (len as u64)),
+    ensures
+        dec_i64_from(enc_uint(w as nat) + tail, num, len) == Some((num | ((w << (len as u64)) as i64), enc_uint(w as nat).len())),
+    decreases w,
+{
+    let s = enc_uint(w as nat) + tail;
+    if w < 128 {
+        assert(s[0] == w as u8);
+        assert((((w as u8) as i64) & 0x7f) << len == ((w << (len as u64)) as i64) && (w as u8) < 0x80) by(bit_vector)
+            requires w < 128, len < 64;
+    } else {
+        let b = (w % 128 + 128) as u8;
+        assert(s[0] == b);
+        assert(s.skip(1) =~= enc_uint((w / 128) as nat) + tail);
+        assert(b >= 0x80 && w / 128 == w >> 7) by(bit_vector)
+            requires w >= 128, b == (w % 128 + 128) as u8;
+        assert(len <= 56 && (w >> 7) <= (u64::MAX >> (((len + 7) as u32) as u64))) by(bit_vector)
+            requires w >= 128, len < 64, w <= (u64::MAX >> (len as u64));
+        let num2 = num | (((b as i64) & 0x7f) << len);
+        lemma_dec_enc_i64_from(w >> 7, tail, num2, (len + 7) as u32);
+        assert(num2 | (((w >> 7) << (((len + 7) as u32) as u64)) as i64) == num | ((w << (len as u64)) as i64)) by(bit_vector)
+            requires len <= 56, w >= 128, b == (w % 128 + 128) as u8, num2 == num | (((b as i64) & 0x7f) << len);
+    }
+}
+
+/// the value `read_var_i64` / `read_signed` reconstruct from a magnitude (two's complement: 2^63 with the sign is i64::MIN)
+pub open spec fn sint_val(mag: u64, neg: bool) -> i64 {
+    if neg { wrapping_neg_i64(mag as i64) } else { mag as i64 }
+}
+
+/// C09 for the signed format, all 2^64 magnitudes and both signs
+pub proof fn lemma_dec_enc_sint(mag: u64, neg: bool, tail: Seq<u8>)
+    ensures
+        dec_sint(enc_sint(mag as nat, neg) + tail) == Some(((sint_val(mag, neg), neg), enc_sint(mag as nat, neg).len())),
+{
+    let s = enc_sint(mag as nat, neg) + tail;
+    let first = (mag % 64 + (if neg { 64nat } else { 0nat }) + (if mag >= 64 { 128nat } else { 0nat })) as u8;
+    assert(s[0] == first);
+    let f64: u64 = (mag % 64 + (if neg { 64nat } else { 0nat }) + (if mag >= 64 { 128nat } else { 0nat })) as u64;
+    assert(first == f64 as u8);
+    let b = first;
+    assert(((b & 0x3f) as i64) == (mag % 64) as i64 && ((b & 0x40) > 0) == neg && ((b & 0x80) == 0) == (mag < 64)) by(bit_vector)
+        requires b == (((mag % 64) + (if neg { 64u64 } else { 0u64 }) + (if mag >= 64 { 128u64 } else { 0u64 })) as u8);
+    if mag < 64 {
+        assert((mag % 64) as i64 == mag as i64) by(bit_vector) requires mag < 64;
+        assert(mag as i64 == mag);
+    } else {
+        assert(s.skip(1) =~= enc_uint((mag / 64) as nat) + tail);
+        assert((mag / 64) <= (u64::MAX >> 6u64)) by(bit_vector);
+        lemma_dec_enc_i64_from(mag / 64, tail, (mag % 64) as i64, 6);
+        assert(((mag % 64) as i64) | ((((mag / 64) << 6u64)) as i64) == mag as i64) by(bit_vector);
+    }
+}
+
+/// C09 for i64: every value, including i64::MIN
+pub proof fn lemma_dec_enc_i64(v: i64, tail: Seq<u8>)
+    ensures
+        dec_i64(enc_i64(v) + tail) == Some((v, enc_i64(v).len())),
+        dec_sint(enc_i64(v) + tail) == Some(((v, v < 0), enc_i64(v).len())),
+{
+    lemma_dec_enc_sint(abs_i64(v), v < 0, tail);
+    lemma_sint_val_abs(v);
+}
+
+pub proof fn lemma_sint_val_abs(v: i64)
+    ensures
+        sint_val(abs_i64(v), v < 0) == v,
+        v == 0 ==> sint_val(abs_i64(v), true) == v,
+{
+    if v == i64::MIN {
+        assert(abs_i64(v) == 0x8000_0000_0000_0000u64);
+        assert(0x8000_0000_0000_0000u64 as i64 == -0x8000_0000_0000_0000i64) by(bit_vector);
+    }
+}
+
+// ---------------------------------------------------------------------------------------------
+// fixed-width integers (little endian unless `_be`) and length-prefixed buffers
+// ---------------------------------------------------------------------------------------------
+pub open spec fn byte_of(v: nat, i: nat) -> u8 {
+    if i == 0 { (v % 256) as u8 } else if i == 1 { (v / 256 % 256) as u8 } else if i == 2 { (v / 65536 % 256) as u8 } else { (v / 16777216 % 256) as u8 }
+}
+
+pub open spec fn le16(v: u16) -> Seq<u8> {
+    seq![byte_of(v as nat, 0), byte_of(v as nat, 1)]
+}
+
+pub open spec fn le32(v: u32) -> Seq<u8> {
+    seq![byte_of(v as nat, 0), byte_of(v as nat, 1), byte_of(v as nat, 2), byte_of(v as nat, 3)]
+}
+
+pub open spec fn be32(v: u32) -> Seq<u8> {
+    seq![byte_of(v as nat, 3), byte_of(v as nat, 2), byte_of(v as nat, 1), byte_of(v as nat, 0)]
+}
+
+pub open spec fn val_le16(s: Seq<u8>) -> nat {
+    s[0] as nat + 256 * (s[1] as nat)
+}
+
+pub open spec fn val_le32(s: Seq<u8>) -> nat {
+    s[0] as nat + 256 * (s[1] as nat) + 65536 * (s[2] as nat) + 16777216 * (s[3] as nat)
+}
+
+pub open spec fn val_be32(s: Seq<u8>) -> nat {
+    s[3] as nat + 256 * (s[2] as nat) + 65536 * (s[1] as nat) + 16777216 * (s[0] as nat)
+}
+
+/// C09 for the fixed-width integers
+pub proof fn lemma_le16_round_trip(a: u16, tail: Seq<u8>)
+    ensures
+        val_le16(le16(a) + tail) == a,
+{
+    let s = le16(a) + tail;
+    assert(s[0] == (a % 256) as u8 && s[1] == (a / 256 % 256) as u8);
+    assert(a == (a % 256) + 256 * ((a / 256) % 256)) by(bit_vector);
+}
+
+pub proof fn lemma_le32_round_trip(b: u32, tail: Seq<u8>)
+    ensures
+        val_le32(le32(b) + tail) == b,
+{
+    let s = le32(b) + tail;
+    assert(s[0] == (b % 256) as u8 && s[1] == (b / 256 % 256) as u8 && s[2] == (b / 65536 % 256) as u8 && s[3] == (b / 16777216 % 256) as u8);
+    assert(b == (b % 256) + 256 * ((b / 256) % 256) + 65536 * ((b / 65536) % 256) + 16777216 * ((b / 16777216) % 256)) by(bit_vector);
+}
+
+pub proof fn lemma_be32_round_trip(b: u32, tail: Seq<u8>)
+    ensures
+        val_be32(be32(b) + tail) == b,
+{
+    let s = be32(b) + tail;
+    assert(s[3] == (b % 256) as u8 && s[2] == (b / 256 % 256) as u8 && s[1] == (b / 65536 % 256) as u8 && s[0] == (b / 16777216 % 256) as u8);
+    assert(b == (b % 256) + 256 * ((b / 256) % 256) + 65536 * ((b / 65536) % 256) + 16777216 * ((b / 16777216) % 256)) by(bit_vector);
+}
+
+/// a length-prefixed buffer as `write_buf` emits it
+pub open spec fn enc_buf(b: Seq<u8>) -> Seq<u8> {
+    enc_uint(b.len()) + b
+}
+
+/// what `read_buf` computes on arbitrary bytes: (payload, bytes consumed)
+pub open spec fn dec_buf(s: Seq<u8>) -> Option<(Seq<u8>, nat)> {
+    match dec_u32(s) {
+        Some((n, k)) => if k + n <= s.len() { Some((s.subrange(k as int, k + n as int), k + n as nat)) } else { None },
+        None => None,
+    }
+}
+
+/// C09 for buffers shorter than 4 GiB (read_buf reads the length as u32, write_buf writes a usize)
+pub proof fn lemma_dec_enc_buf(b: Seq<u8>, tail: Seq<u8>)
+    requires
+        b.len() <= u32::MAX,
+    ensures
+        dec_buf(enc_buf(b) + tail) == Some((b, enc_buf(b).len())),
+{
+    let e = enc_uint(b.len());
+    assert(enc_buf(b) + tail =~= e + (b + tail));
+    lemma_dec_enc_u32(b.len() as u32, b + tail);
+    let s = enc_buf(b) + tail;
+    assert(s.subrange(e.len() as int, (e.len() + b.len()) as int) =~= b);
 }
